@@ -1093,3 +1093,73 @@ def rule_R4i(ctx, rep, config="c-lib"):
             else:
                 rep.ok("R4i", key, sample={"shift": i.where(), "width": bits[i.ty], "amount <=": bound})
     rep.floor("R4i", "shifts by a reduced amount", n, 2)
+
+
+def rule_R4j(ctx, rep, config="c-lib"):
+    rep.rule("R4j", "when a table kept in a variable length object is lengthened by A bytes and a loop then walks a pointer up to the new end to initialise the elements, the "
+                    "walk starts at the old end (new end - A): every element added is initialised.  A start made from the index that was asked for leaves the elements "
+                    "between the old end and that index as realloc delivered them -- a later request for one of them dereferences garbage (the order of requests can "
+                    "differ between parses on one grammar object)")
+    from ..expr import lin as _l
+    p = ctx.prog(config)
+    n = 0
+    for f in p.m.defined():
+        if f.module and not f.module.startswith("yaep."):
+            continue
+        grows = []
+        for s in f.all_insts():
+            if s.op != "store":
+                continue
+            lf = resolve_addr(f, s.ops[1]).last_field() or ""
+            if not lf.endswith("vlo_t.vlo_free"):
+                continue
+            v = _l(f, s.ops[0], 0, 2)
+            fa = [a for a in v.t if a.endswith(".vlo_t.vlo_free]") and v.t[a] == 1]
+            if len(fa) != 1 or len(v.t) < 2:
+                continue
+            amt = v.add(type(v)(0, {fa[0]: 1}), -1)
+            if amt.is_const():
+                continue
+            grows.append((s, fa[0], amt))
+        if not grows:
+            continue
+        for L in f.loops():
+            hdr = f.bmap[L["header"]]
+            t = hdr.term
+            c = f.inst(t.ops[0]) if (t is not None and len(t.ops) == 3) else None
+            if c is None or c.op != "icmp":
+                continue
+            for (x, y) in ((0, 1), (1, 0)):
+                ph = f.inst(strip_casts(f, c.ops[x]))
+                if ph is None or ph.op != "phi" or ph.block.name != L["header"] or ph.ty.startswith("i"):
+                    continue
+                bnd = _l(f, c.ops[y], 0, 2)
+                for (g, cell, amt) in grows:
+                    if not (len(bnd.t) == 1 and bnd.t.get(cell) == 1 and bnd.c == 0 and f.dominates(g.block.name, L["header"])):
+                        continue
+                    # the loop writes through the pointer
+                    if not any(s_.op == "store" and s_.block.name in L["body"] and strip_casts(f, s_.ops[1]) == {"k": "i", "v": ph.id} for s_ in f.all_insts()):
+                        continue
+                    inits = [v for (v, pb) in ph.d["incoming"] if pb not in L["body"]]
+                    steps = [v for (v, pb) in ph.d["incoming"] if pb in L["body"]]
+                    if len(inits) != 1 or len(steps) != 1:
+                        continue
+                    st = _l(f, steps[0], 0, 2)
+                    S = st.c
+                    n += 1
+                    rep.cover(p, [f.name])
+                    key = "%s/new-elements-initialised#%d" % (f.name, n)
+                    iv = _l(f, inits[0], 0, 2)
+                    start = iv.add(type(iv)(0, {cell: 1}), -1)      # start - new end
+                    ok = repr(start.add(amt)) == "0"
+                    if not ok and S > 1 and len(amt.t) == 1 and amt.c == 0:
+                        a0, k0 = list(amt.t.items())[0]
+                        if k0 == 1:
+                            ok = repr(start) == repr(type(iv)(0, {"div(%s,%d)" % (a0, S): -S}))
+                    if ok:
+                        rep.ok("R4j", key, sample={"growth": g.where(), "walk_from": repr(iv)})
+                    else:
+                        rep.violation("R4j", key, "%s lengthens the table by %r bytes and initialises the elements from %r up to the new end: that is not the old end -- "
+                                      "elements between the old end and the start of the walk stay uninitialised and are dereferenced when they are asked for later" % (
+                                          f.name, amt, iv), where=c.where(), witness=[g.where(), c.where()])
+    rep.floor("R4j", "initialising walks over the elements added to a table", n, 1)
